@@ -47,6 +47,9 @@ pub fn run(a: &Args, rep: &mut Report) {
         "C02" => c02(a, rep),
         "C03" => c03(a, rep),
         "C04" => c04(a, rep),
+        "C07" => crate::p_struct::c07(a, rep),
+        "C12" => crate::p_struct::c12(a, rep),
+        "C13" => crate::p_struct::c13(a, rep),
         other => {
             eprintln!("BROKEN: no monitor for property {other}");
             std::process::exit(2);
@@ -90,11 +93,14 @@ pub fn run_one(id: &str, c: &Case, rep: &mut Report) {
         "C02" => one_c02(id, c, rep),
         "C03" => one_c03(id, c, rep),
         "C04" => one_c04(id, c, rep),
+        "C07" => crate::p_struct::one_c07(id, c, rep),
+        "C12" => crate::p_struct::one_c12(id, c, rep),
+        "C13" => crate::p_struct::one_c13(id, c, rep),
         _ => eprintln!("replay not supported for {id}"),
     }
 }
 
-fn note_case(rep: &mut Report, c: &Case, nontrivial: bool) {
+pub fn note_case(rep: &mut Report, c: &Case, nontrivial: bool) {
     if let Ok(path) = std::env::var("VERIF_DUMP") {
         let body = json!({"case": c.to_json()});
         let _ = std::fs::write(path, serde_json::to_string_pretty(&body).unwrap());
@@ -201,7 +207,7 @@ fn one_c03(prop: &str, c: &Case, rep: &mut Report) {
     }
 }
 
-fn with_random_mask(label: &str, a: &Args, k: u64, c: &mut Case, every: u64) {
+pub fn with_random_mask(label: &str, a: &Args, k: u64, c: &mut Case, every: u64) {
     if k % every == every - 1 && c.n() > 0 {
         let mut r = Rng::stream(label, &[a.seed, k]);
         c.mask = Some(gen_mask(c.n(), &mut r));
